@@ -76,6 +76,7 @@ static int null_terminate_sequences(struct msa* msa);
 static int sort_out_lines(const void *a, const void *b);
 
 static int parse_format_argument(char* format, int* type);
+static int line_is_blank(const char* line, int len);
 
 int kalign_read_input(char* infile, struct msa** msa, int quiet)
 {
@@ -487,6 +488,18 @@ ERROR:
 }
 
 
+/* a line without anything but white space separates blocks like an empty line does */
+int line_is_blank(const char* line, int len)
+{
+        int i;
+        for(i = 0; i < len;i++){
+                if(!isspace((int)line[i])){
+                        return 0;
+                }
+        }
+        return 1;
+}
+
 int read_clu(struct in_buffer* b , struct msa** m)
 {
         struct msa* msa = NULL;
@@ -516,7 +529,7 @@ int read_clu(struct in_buffer* b , struct msa** m)
                 line = b->l[nl]->line;
                 line_len = b->l[nl]->len;
 
-                if(!line_len){
+                if(line_is_blank(line, line_len)){
                         active_seq = 0;
                 }else{
                         if(!isspace(line[0])){
@@ -628,7 +641,7 @@ int read_msf(struct in_buffer* b,struct msa** m)
                 line = b->l[nl]->line;
                 line_len = b->l[nl]->len;
                 /* line_len--;     /\* last character is newline  *\/ */
-                if(!line_len){
+                if(line_is_blank(line, line_len)){
                         active_seq = 0;
                 }else{
                         if(!isspace(line[0])){
